@@ -15,6 +15,10 @@ structure SymInfo where
 
 /-- ids `0 … symbol_count + alias_count - 1`, and the field names for ids `1 … field_count` -/
 structure SymTab where
+  /-- how the C source compares with "ERROR": `false` = `strncmp(string, "ERROR", length)` (the
+  unchanged tree), `true` = exact comparison (`length == 5 && …`, fixes/C16-error-prefix.diff);
+  read off lib/src/language.c by the check on every run -/
+  exactError : Bool := false
   syms : List SymInfo
   fieldNames : List (List Nat)
   deriving Repr, Inhabited
@@ -29,7 +33,7 @@ def SymInfo.hasKind (s : SymInfo) : Bool := s.visible || s.supertype
 
 /-- port of `ts_language_symbol_for_name` -/
 def symbolForName (T : SymTab) (name : List Nat) (isNamed : Bool) : Nat :=
-  if isNamed && isErrorPrefix name then errorSym
+  if isNamed && (if T.exactError then name == [69, 82, 82, 79, 82] else isErrorPrefix name) then errorSym
   else match T.syms.find? (fun s => s.hasKind && s.named == isNamed && s.name == name) with
     | some s => s.pub
     | none => 0
